@@ -351,10 +351,17 @@ def run(ctx):
         # application is judged by its own override or the attribute
         hist = [None, "On", None, "", "Off", None, "oN", "off", None, "On",
                 "0", None]
+        fresh = new_app(document_root=os.path.join(tmp, "root"),
+                        document_index=True)
+        listing_off = call(fresh, environ(path="/sub")).body
         for attr in (None, False, True):
             app = new_app()
             if attr is not None:
                 app.debug = attr
+            # built-in pages that are the same for every request with debug
+            # off must not remember a request that had it on
+            app.document_root = os.path.join(tmp, "root")
+            app.document_index = True
 
             def failing(req):
                 raise RuntimeError(TOKEN)
@@ -375,6 +382,12 @@ def run(ctx):
                 if leak != eff or page != eff or \
                         (not eff and dbg.code != unk.code):
                     ctx.violation("override-outlives-its-request", det)
+                lst = call(app, environ(path="/sub", extra=extra))
+                if not eff and lst.body != listing_off:
+                    ctx.violation("override-outlives-its-request", dict(
+                        det, page="directory listing differs from the one "
+                        "of a fresh application with debug off",
+                        listing=(lst.body or b"")[-300:].decode("latin-1")))
     finally:
         os.environ.pop("poor_Debug", None)
         if saved_env is not None:
